@@ -67,6 +67,16 @@ def commonPrefix (str1 str2 : Bytes) : Nat → Nat → Option Nat
 /-- the stored bytes of a RocksDB value (chunk-encoded list) -/
 def rawValue (vals : List Bytes) : Bytes := appendValues [] vals
 
+/-- `getLengthWithoutLastLabel(qName, qLength)`: byte-typed counter `i` -/
+def lengthWithoutLastLabel (q : Bytes) (qLength : Nat) : Nat → Nat → Nat → Option Nat
+  | 0, _, last => some (last + 1)
+  | fuel + 1, i, last =>
+    if i < (qLength % 256 + 255) % 256 then
+      match q[i]? with
+      | none => none
+      | some n => lengthWithoutLastLabel q qLength fuel ((i + n.toNat + 1) % 256) i
+    else some (last + 1)
+
 /-- `findMapInSortedData` (RocksDB v2 keys). `k` has capacity `|rev| + 3`. -/
 def findMapSorted (s : Store) (domain mtype : Bytes) : Res (Option Bytes) :=
   match reverseWire domain with
@@ -89,10 +99,17 @@ def findMapSorted (s : Store) (domain mtype : Bytes) : Res (Option Bytes) :=
             let foundLabel := (fk.drop 2).take (fk.length - 3)
             match commonPrefix rev foundLabel (rev.length + 1) 0 with
             | none => .panic
-            | some length =>
-              if length = 0 then .ok none
-              else if 2 + length + 2 > cap then .panic       -- k[:prefixLen+length+1+len(suffix)]
-              else go fuel (mtype ++ (rev.take length) ++ [0]) 0x2a
+            | some length0 =>
+              -- the wildcard map of the queried name itself does not cover it: go to the parent
+              let length? : Option Nat :=
+                if length0 = rev.length then (lengthWithoutLastLabel rev length0 256 0 0).map (· - 1)
+                else some length0
+              match length? with
+              | none => .panic
+              | some length =>
+                if length = 0 ∧ kBody.length = 3 then .ok none       -- the root was the last candidate
+                else if 2 + length + 2 > cap then .panic       -- k[:prefixLen+length+1+len(suffix)]
+                else go fuel (mtype ++ (rev.take length) ++ [0]) 0x2a
     go (rev.length + 2) (mtype ++ rev) 0x3d
 
 def findMap (b : Backend) (s : Store) (domain mtype : Bytes) : Res (Option Bytes) :=
@@ -131,6 +148,7 @@ def getLocationRdb (s : Store) (c : ClientNet) (mapID : Bytes) : Res (Option Byt
   | some (fk, vals) =>
     let raw := rawValue vals
     if raw.isEmpty then .ok (none, 0)
+    else if fk.length ≠ key.length ∨ fk.take 6 ≠ key.take 6 then .ok (none, 0)   -- not a range point of this map
     else if raw.length < 4 then .err
     else
       let v := raw.drop 4
@@ -209,7 +227,7 @@ def ecsLocation (b : Backend) (s : Store) (q : Bytes) (e : Ecs) : Res (Option Lo
   | .err => .err
   | .panic => .panic
   | .ok loc =>
-    if loc.mapID = [0, 0] then .ok (none, e.scope)
+    if loc.mapID = [0, 0] then .ok (none, 0)      -- no client-subnet map for the name: scope 0
     else if loc.locID ≠ [0, 0] then
       let sc := if e.family = 1 then (loc.mask + 256 - 96) % 256 else loc.mask
       .ok (some loc, sc)
